@@ -9,7 +9,7 @@ descriptor strings, variable storage, handler edits) is `< 256` by `Desc.WF`/`Op
 only arithmetic performed on bytes is guarded by range tests, exactly as in the C code
 (all comparisons in `cat.c` are two-sided ASCII range tests or equalities, so the signedness of
 `char` is immaterial; DESIGN.md section 1). -/
-abbrev Byte := Nat
+notation "Byte" => Nat
 
 inductive VarType | intDec | uintDec | numHex | bufHex | bufString
   deriving DecidableEq, Repr, Inhabited
